@@ -385,7 +385,15 @@ func runWorker(cfg *config, job *Job, from, to, stride uint64, deadline time.Tim
 	case killed:
 		jr.infra = append(jr.infra, fmt.Sprintf("watchdog: worker made no progress for 300 s in run %d of job %s (seed %d)", inflight, job.Name, job.Seed))
 		return 0, true
-	case code == 5 && inflight >= 0:
+	case code == 6 && inflight >= 0 && cfg.prop != "C06" && cfg.prop != "C03":
+		// a call executed alone (solo phase / one-task run) blocks for ever: a
+		// liveness failure that depends on what the process executed before. That
+		// is for C06 (history) and C03 (returns after a fault) to report; the other
+		// checks note the run as not simulated.
+		jr.stalls = append(jr.stalls, uint64(inflight))
+		jr.runs++
+		return uint64(inflight) + stride, false
+	case (code == 5 || code == 6) && inflight >= 0:
 		// every live task is parked in a channel / Cond / WaitGroup operation and
 		// nobody is left to wake them: calls that return when run alone do not
 		// return under this schedule
@@ -874,7 +882,7 @@ func execPlan(cfg *config, v Variant, race bool, p *plan.Plan, tag string) (viol
 			code = ee.ExitCode()
 		}
 		text := stderr.String()
-		if code == 5 {
+		if code == 5 || code == 6 {
 			viols = append(viols, plan.Violation{Property: p.Property, Class: p.Property + "/unbounded-wait", Key: "parked",
 				Detail: "every live task is parked in a channel / sync.Cond / sync.WaitGroup operation and no task is left that could wake them"})
 			return viols, res, ""
